@@ -193,10 +193,10 @@ class Beh:
         self.add(e)
         return o
 
-    def newq(self, kind, ty, path, s):
+    def newq(self, kind, ty, path, s, nv=0):
         o = self.fresh()
         self.add({"k": "newq", "o": o, "kind": kind, "ty": ty, "path": path,
-                  "alpha": s.json_alpha(), "segs": s.json_segs()})
+                  "alpha": s.json_alpha(), "segs": s.json_segs(), "nv": nv})
         return o
 
     def newb(self, kind, path, s=None, ty="usize", n=0, pos=None, nv=0):
